@@ -60,7 +60,12 @@ class H(explore.Harness):
         if method == "PUT" and target == "/characteristics":
             if self.cut_armed:
                 self.cut_armed = False
-                self.cutoff_happened = True
+                # the property excuses the fall-back to polling only after a SUBSCRIPTION request was cut off; a cut-off request that only
+                # turns events off is no such request: what is still subscribed has to be asked for again after the reconnect
+                if any(c.get("ev") for c in json.loads(body).get("characteristics", [])):
+                    self.cutoff_happened = True
+                else:
+                    self.unsub_cut = True
                 conn = next(c for c in self.net.conns if getattr(c, "session", None) is sess)
                 self.loop.call_soon(conn.peer_close)
                 return None
@@ -139,7 +144,7 @@ class H(explore.Harness):
                 continue
             if a == "online" and not self.offline:
                 continue
-            if a == "arm-cut" and (self.cut_armed or self.cutoff_happened):
+            if a == "arm-cut" and (self.cut_armed or self.cutoff_happened or getattr(self, "unsub_cut", False)):
                 continue
             if a.startswith("ev") and self._cur() is None:
                 continue
@@ -269,7 +274,7 @@ class H(explore.Harness):
     def canon(self):
         cur = self._cur()
         return (
-            tuple(sorted(self.pairing.subscriptions)), tuple(sorted(self.model_subs)), self.offline, tuple(sorted(getattr(cur.session, "ev", set()))) if cur else None, tuple(sorted(self.unreg)), self.cut_armed, self.cutoff_happened,
+            getattr(self, "unsub_cut", False), tuple(sorted(self.pairing.subscriptions)), tuple(sorted(self.model_subs)), self.offline, tuple(sorted(getattr(cur.session, "ev", set()))) if cur else None, tuple(sorted(self.unreg)), self.cut_armed, self.cutoff_happened,
             self.pairing.supports_subscribe, bool(self.pairing.is_connected), self.drops, tuple(sorted((k, len(v)) for k, v in self.logs.items())), "S" in self.logs,
             _canon.canon(self.pairing, depth=3, skip=("controller", "_accessories_state", "pairing_data", "_pairing_data", "listeners", "availability_listeners", "config_changed_listeners",
                                                      "owner", "_loop", "_connect_lock", "_connector", "description", "c2a_key", "a2c_key", "encryptor", "decryptor", "c2a_counter", "a2c_counter")),
@@ -336,7 +341,78 @@ def case_event_splits(p):
     return out
 
 
-CASES = {"explore": case_explore, "event_splits": case_event_splits}
+COAP_EV = ["ev", "ev2", "replay", "junk", "raiser"]
+
+
+def case_coap_events(p):
+    """The event half of the property on CoAP: a history over {genuine event, genuine event with two records, a duplicate of an earlier
+    datagram, junk sent to the event resource, (once) a raising listener registered}: every genuine event reaches every listener exactly
+    once, in order, keyed (aid, iid); duplicates and junk deliver nothing and do not disturb what follows."""
+    from vt.env.coaprig import CoapRig
+    from vt.ref import coapacc
+
+    rig = CoapRig(seed=p.get("seed", 0))
+    out = []
+    try:
+        rig.run(rig.pairing.list_accessories_and_characteristics())
+        log = []
+        rig.pairing.dispatcher_connect(lambda ev: log.append(dict(ev)))
+        res = rig.contexts[-1].root._resources[()]
+        sent, expect, n = [], [], 0
+
+        class R:
+            def __init__(self, payload):
+                self.payload = payload
+
+        for sym in p["history"]:
+            if sym == "raiser":
+                def bad(ev):
+                    raise RuntimeError("listener failure")
+
+                rig.pairing.dispatcher_connect(bad)
+                continue
+            if sym in ("ev", "ev2"):
+                items = []
+                for _ in range(2 if sym == "ev2" else 1):
+                    n += 1
+                    iid = 9 if n % 2 else 10
+                    items.append((iid, coapacc.pack_value(rig.acc.chars[iid].format, (n // 2) % 2 == 0 if iid == 9 else n)))
+                    expect.append(((1, items[-1][0]), n))
+                payload = rig.acc.event(items)
+                sent.append(payload)
+            elif sym == "replay":
+                if not sent:
+                    continue
+                payload = sent[0]
+            else:
+                payload = b"\x00" * 24
+            try:
+                rig.run(res.render_put(R(payload)))
+            except Exception as e:  # noqa: BLE001
+                out.append((f"coap:event-resource-raises:{type(e).__name__}:{sym}", {"history": p["history"], "err": str(e)[:160]}))
+                break
+        got = [k for ev in log for k in ev]
+        if not out and got != [k for k, _ in expect]:
+            dup = len(got) > len(expect)
+            out.append((("coap:event-delivered-twice" if dup else "coap:event-lost-for-listener"), {"history": p["history"], "delivered": got, "sent": [k for k, _ in expect]}))
+    finally:
+        rig.close()
+    return out
+
+
+CASES = {"explore": case_explore, "event_splits": case_event_splits, "coap_events": case_coap_events}
+
+
+def _work_coap(item, seed, tier):
+    acc = core.Acc()
+    for hist in item:
+        p = {"history": list(hist), "seed": seed}
+        v = case_coap_events(p)
+        acc.case(key=("coap_events", tuple(hist)), outcome=f"coap_events:{'ok' if not v else v[0][0]}", sample={"case": "coap_events", "params": p}, symbols=("coap_events",) + tuple(f"coap:{s_}" for s_ in hist))
+        acc.traces += 1
+        for sig, detail in v:
+            acc.violation(sig, "coap_events", p, detail)
+    return acc
 
 
 def _work_splits(item, seed, tier):
@@ -382,6 +458,11 @@ def run(ctx):
         work += [(p, r, d) for r in rs]
     ctx.bounds.update(configs=[dict(alphabet=c["alphabet"], depth=d) for c, d in configs])
     ctx.pmap(_work, work)
+    import itertools
+
+    hists = [h for n in range(1, (4 if quick else 6) + 1) for h in itertools.product(COAP_EV, repeat=n) if h.count("raiser") <= 1 and any(x in ("ev", "ev2") for x in h)]
+    ctx.pmap(_work_coap, [hists[i : i + 40] for i in range(0, len(hists), 40)])
+    ctx.bounds.update(coap_event_histories=len(hists), coap_event_alphabet=COAP_EV)
     styles = [None, "chunked", "chunked-2", "chunked-lower"] + ([] if quick else ["lower", "upper", "mixed", "lws", "extra-headers", "no-ctype"])
     ctx.pmap(_work_splits, [dict(style=st) for st in styles])
     ctx.bounds.update(event_split_sweep="every block boundary inside an EVENT x HTTP style x {one read, two reads}", event_styles=styles)
